@@ -34,6 +34,7 @@ def run(ctx, rep):
     # the value being output: integers up to 2^64-1 are held as integers from the parse to the printer
     NR.parse_direct(rep, lib)
     NR.int_ctor(rep, lib)
+    NR.float_window(rep, lib)
     NR.finite(rep, ctx)
     PR.json_structure(rep, lib)
     PR.json_row(rep, lib)
